@@ -455,3 +455,75 @@ def must_pass(stmts, hit, transparent=lambda test: False):
 
     reach, exits = paths(list(stmts))
     return not reach and not exits
+
+
+# --------------------------------------------------------------------------
+# multiplicity (duplicate-sensitivity) analysis: a selection list handed in by the user may repeat an entry; it must be
+# consumed through operations that erase multiplicity (set, unique, isin, boolean masks) and never through a reduction
+# that counts entries.
+# --------------------------------------------------------------------------
+
+MULT_ERASERS = {"set", "frozenset", "np.unique", "np.isin", "np.in1d", "np.intersect1d", "np.union1d", "np.setdiff1d", "np.max", "np.min", "max", "min", "np.any", "np.all"}
+MULT_ERASER_METHODS = {"max", "min", "any", "all"}
+MULT_COUNTERS = {"np.sum", "np.bincount", "np.count_nonzero", "len", "np.add.at", "np.cumsum", "np.mean", "np.histogram", "np.size"}
+MULT_COUNTER_METHODS = {"sum", "mean", "cumsum", "count", "trace"}
+MULT_COUNTER_ATTRS = {"size", "shape"}
+
+
+def multiplicity_sinks(fnode, seeds):
+    """[(node, description)]: places where a value carrying the multiplicity of a seed name is counted"""
+    carry = set(seeds)
+
+    def carries(e):
+        if isinstance(e, ast.Name):
+            return e.id in carry
+        if isinstance(e, ast.Call):
+            d = dotted(e.func) or ""
+            if d in MULT_ERASERS:
+                return False
+            if isinstance(e.func, ast.Attribute):
+                if e.func.attr in MULT_ERASER_METHODS:
+                    return False
+                if carries(e.func.value):
+                    return True  # X.nonzero(), X.ravel(), X.astype() ... keep one entry per entry of X
+            if d in ("list", "tuple", "np.asarray", "np.array", "np.ravel", "np.sort", "sorted", "np.concatenate", "np.append", "np.hstack"):
+                return any(carries(a) for a in e.args)
+            return False
+        if isinstance(e, ast.Subscript):
+            # A[seed] selects one row per entry (carries); seed[mask] keeps multiplicity
+            return carries(e.value) or carries(e.slice)
+        if isinstance(e, (ast.Tuple, ast.List)):
+            return any(carries(x) for x in e.elts)
+        if isinstance(e, ast.Attribute):
+            return e.attr in ("T", "flat") and carries(e.value)
+        if isinstance(e, ast.BinOp):
+            return carries(e.left) or carries(e.right)
+        if isinstance(e, ast.Compare):
+            return False  # a mask
+        if isinstance(e, ast.Starred):
+            return carries(e.value)
+        return False
+
+    changed = True
+    while changed:
+        changed = False
+        for n in ast.walk(fnode):
+            if isinstance(n, ast.Assign) and len(n.targets) == 1:
+                t = n.targets[0]
+                names = [t] if isinstance(t, ast.Name) else (list(t.elts) if isinstance(t, (ast.Tuple, ast.List)) else [])
+                if carries(n.value):
+                    for x in names:
+                        if isinstance(x, ast.Name) and x.id not in carry:
+                            carry.add(x.id)
+                            changed = True
+    out = []
+    for n in ast.walk(fnode):
+        if isinstance(n, ast.Call):
+            d = dotted(n.func) or ""
+            if d in MULT_COUNTERS and any(carries(a) for a in n.args):
+                out.append((n, f"{d}(...) counts the entries"))
+            elif isinstance(n.func, ast.Attribute) and n.func.attr in MULT_COUNTER_METHODS and carries(n.func.value):
+                out.append((n, f".{n.func.attr}() adds the entries up"))
+        elif isinstance(n, ast.Attribute) and n.attr in MULT_COUNTER_ATTRS and carries(n.value):
+            out.append((n, f".{n.attr} depends on the number of entries"))
+    return out
